@@ -128,7 +128,7 @@ static bool allfinite(const std::vector<S> &x) { for (auto &v : x) if (!vf::fini
 // cg: A-norm optimality over x0 + K_k(PA, P r0)
 //---------------------------------------------------------------------------
 static void sub_cg() {
-    long N = vf::tier(100, 700);
+    long N = vf::tier(100, 1500);
     for (long idx = 0; idx < N; ++idx) {
         if (!vf::selected("cg", idx)) continue;
         Rng r(vf::case_seed("cg", idx)); int pk = (int)(idx % 3); System s = make_system(r, true, pk);       // identity / exact / hpd-approx
@@ -185,7 +185,7 @@ template <class F> static void optimal_k(Case &c, const System &s, const std::st
 }
 
 static void sub_gmres() {
-    long N = vf::tier(100, 900);
+    long N = vf::tier(100, 2000);
     for (long idx = 0; idx < N; ++idx) {
         if (!vf::selected("gmres", idx)) continue;
         Rng r(vf::case_seed("gmres", idx)); int pk = (int)(idx % 4); bool spd = (idx / 4) % 3 == 0; if (spd && pk == 3) pk = 2;
@@ -206,7 +206,7 @@ static void sub_gmres() {
 
 // restart lengths M in {1,2,4,30}: reported (and true) residual non-increasing in k
 static void sub_monotone() {
-    long N = vf::tier(60, 500);
+    long N = vf::tier(60, 1000);
     for (long idx = 0; idx < N; ++idx) {
         if (!vf::selected("monotone", idx)) continue;
         Rng r(vf::case_seed("monotone", idx)); int pk = (int)(idx % 4); bool spd = (idx / 4) % 4 == 0; if (spd && pk == 3) pk = 2; if (pk == 1) pk = 2;    // exact P converges in one step: nothing to observe
@@ -256,7 +256,7 @@ static BiRef bicgstab_ref(const Mat &A, const Mat &P, const Vec &f, Vec x, int k
     return BiRef{x, amp};
 }
 static void sub_bicgstab() {
-    long N = vf::tier(120, 900);
+    long N = vf::tier(120, 2000);
     for (long idx = 0; idx < N; ++idx) {
         if (!vf::selected("bicgstab", idx)) continue;
         Rng r(vf::case_seed("bicgstab", idx)); int pk = (int)(idx % 4); if (pk == 1) pk = 3;    // exact P: one step and the residual is rounding noise, recurrences meaningless afterwards
@@ -312,7 +312,7 @@ static BiRef bicgstabl_ref(const Mat &A, const Mat &P, const Vec &f, const Vec &
     Vec x = left ? Vec(x0 + X) : Vec(x0 + P * X); return BiRef{x, amp * cond2sum};
 }
 static void sub_bicgstabl() {
-    long N = vf::tier(100, 600);
+    long N = vf::tier(100, 1500);
     for (long idx = 0; idx < N; ++idx) {
         if (!vf::selected("bicgstabl", idx)) continue;
         Rng r(vf::case_seed("bicgstabl", idx)); int pk = (int)(idx % 3) == 1 ? 3 : (int)(idx % 3); bool spd = (idx / 3) % 4 == 0; if (spd && pk == 3) pk = 2;
@@ -341,7 +341,7 @@ static void sub_bicgstabl() {
 // Two runs (maxiter = s and s + 1) give x_s and x_{s+1}; r_s is recomputed from x_s.
 //---------------------------------------------------------------------------
 static void sub_idrs() {
-    long N = vf::tier(100, 600);
+    long N = vf::tier(100, 1500);
     for (long idx = 0; idx < N; ++idx) {
         if (!vf::selected("idrs", idx)) continue;
         Rng r(vf::case_seed("idrs", idx)); int pk = (int)(idx % 3) == 1 ? 3 : (int)(idx % 3); bool spd = (idx / 3) % 4 == 0; if (spd && pk == 3) pk = 2;
@@ -384,7 +384,7 @@ static void sub_idrs() {
 // Richardson: x + w P (f - A x) repeated k times
 //---------------------------------------------------------------------------
 static void sub_richardson() {
-    long N = vf::tier(100, 600);
+    long N = vf::tier(100, 1500);
     for (long idx = 0; idx < N; ++idx) {
         if (!vf::selected("richardson", idx)) continue;
         Rng r(vf::case_seed("richardson", idx)); int pk = (int)(idx % 4); System s = make_system(r, idx % 3 == 0, (idx % 3 == 0 && pk == 3) ? 2 : pk); int n = s.n;
@@ -412,7 +412,7 @@ static void sub_richardson() {
 // finite termination: exact or identity preconditioner, m <= n distinct eigenvalues, tol 1e-8, budget n (+ceil(n/s), +L-1)
 //---------------------------------------------------------------------------
 static void sub_termination() {
-    long N = vf::tier(160, 800);
+    long N = vf::tier(160, 2400);
     for (long idx = 0; idx < N; ++idx) {
         if (!vf::selected("termination", idx)) continue;
         Rng r(vf::case_seed("termination", idx)); bool exact = idx % 2; bool spd = (idx / 2) % 3 == 0; bool few = (idx / 6) % 2 == 0;
